@@ -63,7 +63,7 @@ def enumerate_cases(tier, scope):
     progs = [RICH, cat['waitwait'], cat['failing'], cat['selfkill'], cat['chain'], SPECD, CODEC]
     for prog in progs:
         for sched in scheds:
-            for loader in ('default', 'custom'):
+            for loader in ('default', 'custom', 'custom-arg'):
                 yield {'program': prog, 'schedule': sched, 'loader': loader}
             yield {'program': prog, 'schedule': sched, 'loader': 'default', 'hook_points': True}
     from .c09 import _small_instrs
@@ -123,7 +123,7 @@ def _cases(draw, tier):
     program = {'steps': steps, 'inputs': inputs}
     if draw(st.integers(0, 3)) == 0:
         program['codec'] = True
-    return {'program': program, 'schedule': sched, 'loader': draw(st.sampled_from(['default', 'default', 'custom'])), 'hook_points': draw(st.booleans())}
+    return {'program': program, 'schedule': sched, 'loader': draw(st.sampled_from(['default', 'default', 'custom', 'custom-arg'])), 'hook_points': draw(st.booleans())}
 
 
 def strategy(tier):
@@ -168,13 +168,13 @@ def same(a, b, path=''):
     return None
 
 
-def _load_and_resave(ckpt, medium, loader):
+def _load_and_resave(ckpt, medium, loader, how='unbundle'):
     out = {}
     data = media.encode(ckpt['bundle'], medium)
     with Exec({'program': {'steps': []}}, attach_listener=False) as ex:
         try:
             with ex.loop.as_running():
-                proc = media.load(data, medium, ex.loop, loader=loader)
+                proc = media.load(data, medium, ex.loop, loader=loader, how=how)
         except Exception as exc:  # noqa: BLE001
             out['load_error'] = exc
             return out
@@ -195,7 +195,8 @@ def execute(case):
     def v(clause, detail):
         viol.append({'clause': clause, 'detail': detail})
 
-    loader = loaders_h.TagLoader() if case.get('loader') == 'custom' else None
+    ways = set()
+    loader = {'custom': loaders_h.TagLoader, 'custom-arg': lambda: loaders_h.ArgLoader({'registry': 1})}.get(case.get('loader'), lambda: None)()
     is_wc = 'outline' in case
     with Exec(case, attach_listener=False) as ex:
         ex.capture = 'bundle'
@@ -234,14 +235,17 @@ def execute(case):
         b1 = ckpt['bundle']
         if _carries(b1, ckpt):
             nontrivial_points += 1
-        for medium in media.MEDIA:
+        for mi, medium in enumerate(media.MEDIA):
+            # the public ways of recreating a process take turns (unbundle / Savable.load / recreate_from with and without context)
+            how = media.LOAD_WAYS[(ckpt['index'] + mi) % len(media.LOAD_WAYS)]
+            ways.add(how)
             try:
-                res = _load_and_resave(ckpt, medium, loader)
+                res = _load_and_resave(ckpt, medium, loader, how)
             except Exception as exc:  # noqa: BLE001
                 v('medium-failed', f'{where} via {medium}: {exc!r}')
                 continue
             if 'load_error' in res:
-                v('load-failed', f"{where} via {medium}: {res['load_error']!r}")
+                v('load-failed', f"{where} via {medium} ({how}): {res['load_error']!r}")
                 continue
             if 'save_error' in res:
                 v('resave-failed', f"{where} via {medium}: {res['save_error']!r}")
@@ -257,6 +261,7 @@ def execute(case):
         break
     classes.append('wc' if is_wc else 'proc')
     classes.append('loader:' + case.get('loader', 'default'))
+    classes.extend('load-way:' + w for w in sorted(ways))
     classes.append('checkpoints:%d' % len(checkpoints))
     if n_unsavable:
         classes.append('unsavable-wc-waiting')
